@@ -28,9 +28,16 @@ class Entity:
         util.check_entity_name_and_type(name, type_)
 
         h5group = h5parent.open_group(name)
-        h5group.set_attr("name", name)
-        h5group.set_attr("type", type_)
-        h5group.set_attr("entity_id", id_)
+        try:
+            h5group.set_attr("name", name)
+            h5group.set_attr("type", type_)
+            h5group.set_attr("entity_id", id_)
+        except Exception:
+            # a name or type that cannot be stored (not a string): do not
+            # leave a half-built entity behind
+            if name in h5parent:
+                del h5parent[name]
+            raise
 
         newentity = cls(nixfile, nixparent, h5group)
         newentity.force_created_at()
